@@ -188,7 +188,7 @@ def build(x):
         proof { lemma_to_map(k0, v0, k0.len() as int); }
 ''')
     up.insert_before(re.compile(r'return None;'), '''proof {
-                let j = choose|i: int| 0 <= i < k0.len() && k0[i] == coord && *@{t0} == v0[i] && self.map.vals() == #[trigger] v0.update(i, *final(@{t0}));
+                let j = choose|i: int| 0 <= i < k0.len() && k0[i] == coord && *§t0§ == v0[i] && self.map.vals() == #[trigger] v0.update(i, *final(§t0§));
                 assert(self.map.vals() =~= v0);
                 assert(e0.contains_key(k0[j]) && e0[k0[j]] == v0[j]);
                 assert(self.entries() =~= e0.insert(coord, raised(e0[coord], ts)));
@@ -204,9 +204,9 @@ def build(x):
             assert(self.entries() =~= e0.insert(coord, Some(ts)));
             self.lemma_frontier_of();
             // the frontier never decreases: every entry only grows
-            if @{prev_frontier} is Some {
+            if §prev_frontier§ is Some {
                 let e1 = self.entries();
-                assert forall|c: Coord| e1.contains_key(c) implies (#[trigger] e1[c]) is Some && e1[c]->0 >= @{prev_frontier}->0 by {
+                assert forall|c: Coord| e1.contains_key(c) implies (#[trigger] e1[c]) is Some && e1[c]->0 >= §prev_frontier§->0 by {
                     assert(e0.contains_key(c));
                     if c == coord { } else { assert(e1[c] == e0[c]); }
                 }
